@@ -7,7 +7,7 @@
 #include "gram.h"
 #include "oracle.h"
 
-#define P_MAXTOK 12
+#define P_MAXTOK 16
 static int p_n;                       /* token count */
 static int p_sym[P_MAXTOK];           /* symbol index of each token (concrete per path) */
 static int p_code[P_MAXTOK];          /* code delivered to yaep (may be symbolic) */
@@ -261,6 +261,7 @@ static const char *const near_bases[][4] = {
   /* G8 */ { "iixeixex", "iiixexex", 0, 0 }, /* G9 */ { "(a+a)+(a+a)", "(a+(a+a))+a", "a+(a+a+a", 0 }, /* G10 */ { "a;a;a;a;", "a;bbb;a;bbb;", "a;bb;a;", "a;ab;a;a;" },
   /* G11 */ { "axy", "axz", 0, 0 }, /* G12 */ { "xabcyabd", "xabcxabc", "xacyad", "xabcyad" }, /* G13 */ { "aab", "ba", "cca", "ca" }, /* G14 */ { "aaaaaa", "baaaa", "bbaaa", 0 },
   /* G15 */ { "(a+a)*a+a", "a*(a+a)*(a+a)", "a+a*a+a*a+a", "(a+a*(a+a))" }, /* G16 */ { "a;a;a;a;", "a;ba;a;", 0, 0 }, /* G17 */ { "abcd", "bcacdd", 0, 0 }, /* G18 */ { "aa", "a", 0, 0 },
+  /* G19 */ { "xabcxabcyabd", "xacyadxacyad", "xabcyabdxabc", "yadyadyad" },
 };
 static void p_input_near (int gi, int base, int k)
 {
